@@ -6,9 +6,22 @@ from oracles import readers_agree_o as A
 from props._util import rng_for, run_cases
 
 LEVEL = "other"
-DEDUCTIVE = []
+DEDUCTIVE = [
+    # the residue-level reader's per-line decode (contract of contracts/parser_c.py, also a target of C08)
+    {"module": "rnapolis.parser", "sidecar": "contracts.parser_c", "targets": ["parse_pdb@decode", "lemma:record_names", "lemma:decoded_snoc"]},
+    # the table-level reader's per-line decode (prefix contract up to the DataFrame construction)
+    {"module": "rnapolis.parser_v2", "sidecar": "contracts.parser_v2_c", "targets": ["parse_pdb_atoms@decode", "lemma:decoded_v2_snoc"],
+     "opts": {"z3_probe_ms": 400, "cvc5_probe_s": 6}},
+    # one line, both decodes: where they denote the same values and where not
+    {"module": "rnapolis.parser_v2", "sidecar": "contracts.parser_v2_c", "targets": ["lemma:readers_agree_on_a_line", "lemma:record_test_agrees"]},
+]
 TRUSTED = ["gen/emit.py + gen/atomtables_c09.py emitters (independent of the library's writers, unverified)", "numpy", "pandas groupby", "mmcif IoAdapterPy tokeniser",
-           "scipy KD-tree (clash filter of the residue-level reader)", "CPython 3.12"]
+           "scipy KD-tree (clash filter of the residue-level reader)", "CPython 3.12",
+           # deductive part
+           "str.strip(): uninterpreted py_strip in both sidecars (the same symbol); float(str) / int(str): pyvc's py_float / py_float_ok / ext_int_of_str; pandas.to_numeric on the table-level reader's number texts is taken to be int()/float() of the text",
+           "str.splitlines() (table-level reader) / IO.readlines() after seek(0) (residue-level reader): the list of the file's lines, nothing else assumed",
+           "the assumed callee contracts and externals of contracts/parser_c.py listed under C08 (KD-tree, filter_clashing_atoms is verified there)",
+           "z3 / cvc5 (strings, arrays, quantifiers)"]
 ASSUMPTIONS = [
     "tables carry no alternate locations and no two atoms closer than 0.5 A (the residue-level reader's clash filter is C08's subject)",
     "tables can be written in both formats: one-character non-blank chain ids (a blank PDB chain has no mmCIF counterpart, so it is outside this property)",
@@ -18,8 +31,19 @@ ASSUMPTIONS = [
     "the reference is the generated table itself; an error is a view departing from the table (tag names the view); a departure shared by all four views is tagged unanimous-",
     "for a multi-model table the structure is its first model (what read_3d_structure returns by default); Structure() receives the table exactly as parse_*_atoms returns it",
     "corpus structures are re-serialised from their first model after alternate locations were resolved, chains renamed to one character when needed; atoms with names over 4 characters are left out",
+    # deductive part
+    "definitional lemma strip_definition of contracts/parser_v2_c.py (NOT proved, defines py_strip on texts of at most 8 characters: first to last non-whitespace character) - used for the one-character columns 22 and 27 and the record name",
+    "definitional lemma wfl_definition of contracts/parser_c.py (abbreviation wfl(l) = wf_line(lines[l])); the residue-level decode is proved for well-formed PDB text (wf_pdb: record names in columns 1-6, ATOM/HETATM lines of >= 27 columns whose numeric columns parse) that has at least one ATOM/HETATM record",
+    "where the two decodes differ (stated, not judged): a blank chain column 22 is ' ' for the residue-level reader and '' for the table-level reader (any whitespace character there: kept vs removed); a whitespace character other than the blank in the insertion-code column 27 is kept by the residue-level reader and is None for the table-level reader; ' ATOM ' style record names (not left-aligned in columns 1-6) are ATOM records only for the table-level reader",
 ]
-EXPLANATION = ("bounded only: generated tables (template nucleotides from small corpus files under random rigid motions incl. far-from-origin placements that need the full "
+EXPLANATION = ("DEDUCTIVE (string level): for one PDB ATOM/HETATM line both readers' decode is under contract on the real code - parser.parse_pdb (target parse_pdb@decode of contracts/parser_c.py: every atom is `decoded` from its line: "
+               "name = strip(cols 13-16), residue name = strip(18-20), chain = column 22 as is, number = int(strip(23-26)), icode = None if column 27 is ' ' else column 27, x/y/z/occupancy = float(strip(31-38 / 39-46 / 47-54 / 55-60))) and "
+               "parser_v2.parse_pdb_atoms (target parse_pdb_atoms@decode, a prefix contract up to the DataFrame construction: every record is `decoded_v2` from its line: each field = strip of its PDB column range, blank optional fields None, numbers kept as text). "
+               "Lemma readers_agree_on_a_line: for a line of >= 27 columns with a = decoded and r = decoded_v2 of the same line: atom name, residue name, residue number, x, y, z, occupancy are the same values (numbers: int()/float() of the table-level text); "
+               "the chain is the same iff column 22 is not whitespace (blank: ' ' vs ''); the insertion code is the same when column 27 is the blank (both None) or a non-whitespace character. Lemma record_test_agrees: a line the residue-level contract calls an "
+               "ATOM/HETATM line is one for the table-level reader. Both decode contracts also give: one atom/record per ATOM/HETATM line, in file order, model = the last preceding MODEL serial (1 if none). "
+               "NOT deductive (bounded below): residue grouping (file-order runs vs pandas groupby), the DataFrame construction and dtype conversion, the mmCIF legs, connectivity and torsion comparison (the torsion sign relation is C18's subject). "
+               "BOUNDED: generated tables (template nucleotides from small corpus files under random rigid motions incl. far-from-origin placements that need the full "
                "8-column coordinate field, renumbering with negative numbers / insertion codes, broken or near-threshold O3'-P junctions, dropped atoms, hetero groups) and corpus "
                "structures are written as PDB and mmCIF by independent emitters and read by both reader generations; residues, atoms, coordinates, O3'-P connectivity and |chi| "
                "are compared with the table and across the views.")
